@@ -91,7 +91,7 @@ PROPS.update({
         "text": "Kernel-checked: (a) for every run the JoinHandle output equals the outcome computed from the hook events alone (variant, phase, killed, error source, actor log, panic as JoinError) - theorem on the very predicate C05.ok that is evaluated on real traces; (b) accessor laws for all values of ActorResult, proved about the functions translated from src/actor_result.rs on every run; the translation is differential-tested against the real accessors on all 18 shapes, with independent oracles.",
         "note": PROOF_NOTE,
         "technique": "Lean 4 invariant proof + theorems on translated accessor functions + exhaustive differential test of the translation",
-        "monitors": ["C05"],
+        "monitors": ["C05", "C04"],
         "extra": ["tables"],
         "corr": corr(["eager", "shutdown", "mixed", "idle", "burst"]),
         "extract_items": ["FailurePhase", "ActorResult"],
@@ -108,7 +108,7 @@ PROPS.update({
         "extra": ["stress"],
         "monitors": ["C03"],
         "corr": corr(["eager", "shutdown", "burst", "mixed", "handles", "timeouts", "idle"]),
-        "extract_items": ["ask_wait_watches_closed"],
+        "extract_items": ["ask_wait_watches_closed", "timeout_wrappers", "blocking_dispatch"],
         "assumptions": COMMON_ASSUME + ["Sender::closed() completes once the receiver is closed or dropped"],
     },
     "C06": {
